@@ -43,6 +43,19 @@ func concInputs(c *genCtx) []concInput {
 	for _, d := range treeShapes(c) {
 		add("doc", d)
 	}
+	// malformed part-way through nested values (error exits of the generic decoder and the traversals)
+	for _, s := range []string{`[{"a":1,"c":}]`, `[{"a":1,"c":}`, `{"a":[1,{"b":}]}`, `[[1,2],[3,`, `{"a":{"b":{"c":[1,}}}`, `[{"a":[]},{"b":[}]`, `{"k":[{"x":1},{"y":}]}`,
+		`[1e400]`, `{"a":1e400}`, `[{"a":"\ud83d\ude00"},{"b":"\q"}]`, `[[[[[[[[1,]]]]]]]]`, `{"a":"x\ny","b":"\u12"}`} {
+		for i := 0; i < 3; i++ {
+			add("doc", []byte(s))
+		}
+	}
+	for i := 0; i < nd; i++ {
+		g := &docGen{rng: c.rng, maxDepth: 2 + c.rng.Intn(4), maxWidth: 2 + c.rng.Intn(3), wsProb: 0.1, maxStr: 6, hiBytes: true}
+		d := g.container("[{"[c.rng.Intn(2)])
+		add("doc", mutate(c.rng, d))
+		add("doc", mutate(c.rng, mutate(c.rng, d)))
+	}
 	g := &docGen{rng: c.rng, maxStr: 20, hiBytes: true}
 	for i := 0; i < nd; i++ {
 		add("num", g.num(nil))
@@ -100,6 +113,7 @@ func genConc(c *genCtx) error {
 				rng := rand.New(rand.NewSource(c.seed*1000 + int64(ri*100+g)))
 				po := newParseObserver()
 				var rd rjson.ValueReader
+				warmUp(&rd)
 				used := &rjson.Buffer{}
 				var j jb
 				order := rng.Perm(len(inputs))
